@@ -545,6 +545,11 @@ func (d *c16Drv) up(kv map[string]string) string {
 	return "UP " + c16Status(r) + " " + effect + " |" + side
 }
 
+func c16IsCtrl(body []byte, code int) bool {
+	var resp ServerComMessage
+	return json.Unmarshal(body, &resp) == nil && resp.Ctrl != nil && resp.Ctrl.Code == code
+}
+
 // download request line
 func (d *c16Drv) sv(kv map[string]string) string {
 	method := kv["m"]
@@ -616,6 +621,8 @@ func (d *c16Drv) sv(kv map[string]string) string {
 	side := ""
 	if len(before.recs) != len(after.recs) || len(before.dir) != len(after.dir) {
 		effect = "odd-store-changed"
+	} else if !r.crashed && r.rec.Code == 200 && method == "GET" && c16IsCtrl(r.rec.Body.Bytes(), 200) {
+		// a {ctrl} reply written for the media handler's own status, no file bytes
 	} else if !r.crashed && r.rec.Code == 200 && method == "GET" {
 		effect = "served:?"
 		got := r.rec.Body.Bytes()
@@ -775,6 +782,21 @@ func (d *c16Drv) hist(w []string) string {
 			// the message row exists whatever the reply says
 			d.pubs = append(d.pubs, c16Pub{tn, after})
 			saved = "1"
+		}
+		if saved == "1" && (c == nil || c.Code >= 300) {
+			// The row is stored but the topic's cached lastID was not advanced (DESIGN section 6 #12):
+			// every later publish would collide.  Let the topic be unloaded and loaded again, as it
+			// happens after an idle period, so that the history can go on.
+			id2 := d.nextID()
+			d.send(at(1), id2, `{"leave":{"id":"`+id2+`","topic":"`+tn+`"}}`)
+			if t := globals.hub.topicGet(tn); t != nil {
+				globals.hub.unreg <- &topicUnreg{rcptTo: tn}
+				vWaitQuiet(d.topicNames())
+			}
+			id3 := d.nextID()
+			if c3 := d.send(at(1), id3, `{"sub":{"id":"`+id3+`","topic":"`+tn+`"}}`); c3 == nil || c3.Code >= 300 {
+				return "PUB saved=" + saved + " resub-failed-" + c16Code(c3)
+			}
 		}
 		return "PUB saved=" + saved + " | code=" + c16Code(c)
 	case "TAV": // TAV <user> <t> <templates>
